@@ -3,7 +3,7 @@ import hashlib as _hl
 _c24_dev_hash = _hl.sha256(open(_os.path.join(_os.path.dirname(_f), 'c24_dev.hpp'), 'rb').read()).hexdigest()[:16]
 
 target('c24_adv', 'engines/ll/c24_adv.cpp', extra_src=LL_SRC, cxxflags=['-gline-tables-only', '-DC24_DEV_HASH=0x' + _c24_dev_hash],
-       quick=dict(cases=60000, size=120), thorough=dict(cases=1000000, size=160))
+       quick=dict(cases=240000, size=120), thorough=dict(cases=1000000, size=160))
 prop('C24', ['c24_adv'], 'll',
      rule='rapidcheck generates one of 5 link layer configurations (variable/fixed channel map, variable/fixed interval, automatic/manual '
           'start, one, two or four advertising types, two PDU layouts) and a history of up to ~150 steps: start_advertising(), '
